@@ -37,6 +37,11 @@ type Scenario struct {
 	// AtomicRequests restricts the schedules to those in which a request, once
 	// submitted, runs to completion before anything else happens (C02 reference).
 	AtomicRequests bool
+	// AtomicSweeps: a background sweep, once it has issued a submission, runs to completion
+	// before anything else happens (C02 reference: a one-at-a-time server also runs its
+	// background work one at a time, so the reference set never contains an outcome that
+	// needs a request to land between a sweep's read and its write).
+	AtomicSweeps bool
 	Known          map[string]bool // signatures of listed known findings
 	Lates          int             // store completions that may reach their coroutine only with the next tick (after a clock step, another completion, a sweep)
 	ClockWhenIdle  bool            // the clock only advances while no client request is in flight
@@ -268,6 +273,17 @@ func (sc *Scenario) options(w *world.World, st *runState) []option {
 						}
 						return opts
 					}
+				}
+			}
+		}
+	}
+
+	if sc.AtomicSweeps {
+		for i, p := range pend {
+			for _, name := range world.BackgroundNames {
+				if strings.HasPrefix(p.Owner, name+":") {
+					i := i
+					return append(opts, option{"exec " + p.Label(), 0, func() { w.Exec(i, world.OK) }})
 				}
 			}
 		}
